@@ -27,21 +27,25 @@ var registry = map[string]*Check{}
 
 // ruleAddenda: driver extensions added after the first build (each closes a hole a deliberate change slipped through); appended to Rule.
 var ruleAddenda = map[string]string{
-	"C01": "operators that re-bind a namespace prefix elsewhere in the document (an x:Assertion under a foreign binding plus a later element re-declaring x), reached in pairs at depth 2; group no-signing-key-published: every initial document and every depth-1 document under IdP metadata that publishes an encryption key only / an empty signing descriptor (nothing may be accepted)",
-	"C02": "group window-product-option-axes: the 4^5 product again with AllowIDPInitiated set, and for assertion-only signatures with the Response's Destination absent",
-	"C03": "lattice fields method (bearer / holder-of-key / sender-vouches on one or all confirmations; acceptance of non-bearer confirmations is DONT_CARE) and idpinit (AllowIDPInitiated)",
-	"C04": "a 'no SubjectConfirmation at all' value at the confirmation level; group middleware-acs: 0-2 flows started through samlsp.Middleware, every subset of their tracking cookies presented, 6x6 InResponseTo choices, AllowIDPInitiated, both layouts, POSTed to the real ServeACS",
-	"C06": "request kinds that select a registered non-POST endpoint by URL or index; axis reqextra (NameIDPolicy formats, SPNameQualifier, a Subject naming another principal) with a non-interference oracle: identity asserted for the same session must equal the one for the same request without that content",
-	"C07": "group rollover-sequences: all 27 length-3 re-keying sequences of the IdP (same entity ID, the SP object kept and handed the re-published metadata) and of the SP (IdP object kept), with and without encryption, a fresh login after every step",
-	"C08": "key descriptors listing a certificate chain (first certificate is the key holder's); 5 role-descriptor arrangements (leading/trailing artifact-only SPSSODescriptor, POST ACS in second position) for both launch kinds",
-	"C09": "group response-placements: payload (plain / deflated / deflate bombs of 11 and 64 MB) in the form field, the query string, both, GET - for ParseResponse and ValidateLogoutResponseRequest with an allocation bound; group encrypted-assertion-ciphertext-lengths: EncryptedAssertion whose key genuinely unwraps, 5 block algorithms x 2 key transports x 24 data lengths around every block boundary x 2 signing layouts",
-	"C13": "option 3: IdP logout endpoints advertising a ResponseLocation; group reconfiguration-sequences: ONE ServiceProvider value whose key pair and signature method are changed between messages (all sequences of <=3 (thorough 4) configurations out of 8, last message of each of the 7 kinds), every message verified against the configuration in force",
+	"C19": "group live-credential-sequences: on ONE long-lived server every sequence of 3 (thorough 4) actions touching alice's credentials (logins and SSO with posted credentials, password change, profile change, deletion; at most one bcrypt-cost password change per sequence)",
+	"C12": "endpoint variant resploc (IdP logout endpoints advertise a ResponseLocation: requests still go to Location)",
+	"C11": "group wrapped-key-length: EncryptedKey CipherValue of 0, 1, k-1, k, k+1, k+2, k+16, 2k, 2k+1, 4k bytes for 3 RSA keys x 3 key transports x both entry elements x with/without embedded certificate; via-sp layouts with RetrievalMethod",
+	"C10": "RSA keys whose modulus is not a whole number of bytes (2047, 2044, 1031 bits); group results-independent-across-calls: all sequences of 2-3 Encrypt calls followed by the Decrypts over 7 lengths per block cipher, every returned plaintext and element compared again after the later calls",
+	"C01": "operators that re-bind a namespace prefix elsewhere in the document (an x:Assertion under a foreign binding plus a later element re-declaring x), reached in pairs at depth 2; group no-signing-key-published: every initial document and every depth-1 document under IdP metadata that publishes an encryption key only / an empty signing descriptor (nothing may be accepted); a trust configuration with ordinary metadata and an application SignatureVerifier that refuses everything",
+	"C02": "group window-product-option-axes: the 4^5 product again with AllowIDPInitiated set, and for assertion-only signatures with the Response's Destination absent; the same group with the varied confirmation declared holder-of-key / sender-vouches (the window holds for every confirmation)",
+	"C03": "lattice fields method (bearer / holder-of-key / sender-vouches on one or all confirmations; acceptance of non-bearer confirmations is DONT_CARE) and idpinit (AllowIDPInitiated); fields issuerFormat (Format attribute of the Response / Assertion Issuer) and irt (unsolicited: no InResponseTo anywhere); second pass options-product-x-single-deviation: full product of the four option fields with <= 1 addressing field away from correct",
+	"C04": "a 'no SubjectConfirmation at all' value at the confirmation level; group middleware-acs: 0-2 flows started through samlsp.Middleware, every subset of their tracking cookies presented, 6x6 InResponseTo choices, AllowIDPInitiated, both layouts, POSTed to the real ServeACS; decoy cookies in middleware-acs (a session token of the same middleware, or garbage, under a tracking-cookie name)",
+	"C06": "request kinds that select a registered non-POST endpoint by URL or index; axis reqextra (NameIDPolicy formats, SPNameQualifier, a Subject naming another principal) with a non-interference oracle: identity asserted for the same session must equal the one for the same request without that content; SP metadata whose ACS endpoints carry a ResponseLocation; IdP configuration with an external Signer and a stale private key left in Key",
+	"C07": "group rollover-sequences: all 27 length-3 re-keying sequences of the IdP (same entity ID, the SP object kept and handed the re-published metadata) and of the SP (IdP object kept), with and without encryption, a fresh login after every step; session fields EduPersonPrincipalName (next to a different UserEmail) and SubjectID as string positions; group idp-intermediates",
+	"C08": "key descriptors listing a certificate chain (first certificate is the key holder's); 5 role-descriptor arrangements (leading/trailing artifact-only SPSSODescriptor, POST ACS in second position) for both launch kinds; group idp-side-retry-after-failed-encryption: the k-th draw from the random source fails (k=0..5) on ONE IdpAuthnRequest, WriteResponse attempted three times; group idp-side-overlapping-responses: two responses built by two threads under the controlled scheduler with every draw from the random source a scheduling point (quick: <= 2 preemptions on 3 layouts; thorough: all interleavings on all layouts), content keys / IVs distinct and non-degenerate",
+	"C09": "group response-placements: payload (plain / deflated / deflate bombs of 11 and 64 MB) in the form field, the query string, both, GET - for ParseResponse and ValidateLogoutResponseRequest with an allocation bound; group encrypted-assertion-ciphertext-lengths: EncryptedAssertion whose key genuinely unwraps, 5 block algorithms x 2 key transports x 24 data lengths around every block boundary x 2 signing layouts; group keyinfo-shapes-x-trust-configurations: 19 shapes of the (unsigned) KeyInfo x 10 trust configurations (metadata variants, fingerprint incl. unknown / missing algorithm, pinned incl. garbage, no signing key) x 5 message kinds; group encrypted-assertion-key-placement: EncryptedKey embedded / sibling / both, RetrievalMethod with 28 URI forms, 5 Id values",
+	"C13": "option 3: IdP logout endpoints advertising a ResponseLocation; group reconfiguration-sequences: ONE ServiceProvider value whose key pair and signature method are changed between messages (all sequences of <=3 (thorough 4) configurations out of 8, last message of each of the 7 kinds), every message verified against the configuration in force; group sign-again: the exported Sign* methods applied to an already signed message (twice, three times, after editing a field) for 4 message kinds x 2 key types",
 	"C14": "form idp-response-sp-initiated: the peer string arrives inside the AuthnRequest (AssertionConsumerServiceURL next to a valid index; RelayState) and the form must post to the registered location",
-	"C15": "group metadata-endpoint-location-forms: 25 lexical forms of valid http(s) URLs (case of scheme/host, non-ASCII, blanks and braces, empty fragment/query, lower- and upper-case escapes, userinfo, IPv6, dot segments, IDN) x 8 endpoint positions x 4 bindings must survive a generation verbatim",
-	"C16": "group hand-set-lifetimes: codec and provider lifetimes set by hand (0, negative, 1 ns .. 25 h) x 9 session ages",
-	"C17": "one of the three protected URLs has reserved characters percent-encoded in its path (and starts with an encoded slash): it must come back verbatim; half of the configurations set their own DefaultRedirectURI (the landing page of a login without RelayState); two more configurations deliver responses by reference (HTTP-Artifact response binding, resolved by the middleware through a stub back channel that answers the ArtifactResolve it actually sent)",
-	"C18": "status values with nested PartialLogout / AuthnFailed under non-Success codes; group no-signing-key-published (metadata with an encryption key only / an empty signing descriptor: nothing is valid, whoever signed)",
-	"C20": "store alphabet includes a Get whose destination cannot hold the stored JSON (the error path of Get)",
+	"C15": "group metadata-endpoint-location-forms: 25 lexical forms of valid http(s) URLs (case of scheme/host, non-ASCII, blanks and braces, empty fragment/query, lower- and upper-case escapes, userinfo, IPv6, dot segments, IDN) x 8 endpoint positions x 4 bindings must survive a generation verbatim; group metadata-validity-instants: 22 validUntil instants from year 1 to 9999 (around the Unix epoch, 2038, 2106, 2262, non-UTC zones) x 4 cache durations on an EntityDescriptor and inside an EntitiesDescriptor",
+	"C16": "group hand-set-lifetimes: codec and provider lifetimes set by hand (0, negative, 1 ns .. 25 h) x 9 session ages; attribute gates with near-miss values (letter case, blanks, prefixes, joined lists, attribute-name case); group idp-session-bound-vs-lifetime: AuthnStatement SessionNotOnOrAfter absent / inside / far beyond the lifetime x 1-2 statements x 10 ages x 2 lifetimes",
+	"C17": "one of the three protected URLs has reserved characters percent-encoded in its path (and starts with an encoded slash): it must come back verbatim; half of the configurations set their own DefaultRedirectURI (the landing page of a login without RelayState); two more configurations deliver responses by reference (HTTP-Artifact response binding, resolved by the middleware through a stub back channel that answers the ArtifactResolve it actually sent); group index-alphabet: tracking indices starting with each of the 64 base64url characters and 16 words (saml_, sso, login-1, ...) through a RelayStateFunc, one complete flow each, both request bindings",
+	"C18": "status values with nested PartialLogout / AuthnFailed under non-Success codes; group no-signing-key-published (metadata with an encryption key only / an empty signing descriptor: nothing is valid, whoever signed); group custom-signature-verifier (refusing / delegating) and group trust-rotation (one ServiceProvider, all 8 length-3 key sequences, metadata replaced or edited in place, both signers presented after every step)",
+	"C20": "store alphabet includes a Get whose destination cannot hold the stored JSON (the error path of Get); a third registered SP whose metadata carries a validUntil in the past, with an SSO request from it among the handlers",
 }
 
 // Register adds a check.
